@@ -54,7 +54,7 @@ const (
 
 // verifShape is the generated shape of an ActionResult.
 type verifShape struct {
-	outputFiles int  // 0..2
+	outputFiles int // 0..2
 	stdout      bool
 	stderr      bool
 	directory   bool // one output directory
